@@ -195,6 +195,25 @@ def deliveredAreFrames (b : Bytes) (seq : String) : Bool :=
     | x :: xs, y :: ys => if x == y then sub xs ys else sub (x :: xs) ys
   sub delivered (specFrames (b.length + 1) b)
 
+/-- the stream header at the front of `b` by the independent registry (`Spec`): the text a
+one-shot reader must answer, `none` while the header is incomplete -/
+def specHeader (b : Bytes) : Option String :=
+  match Spec.varint b with
+  | none => none
+  | some (ty, r1) =>
+    let used1 := b.length - r1.length
+    if ty == Spec.STREAM_CONTROL then some s!"header:control:-:{used1}"
+    else if ty == Spec.STREAM_QPACK_ENCODER then some s!"header:qenc:-:{used1}"
+    else if ty == Spec.STREAM_QPACK_DECODER then some s!"header:qdec:-:{used1}"
+    else if Spec.isGrease ty then some s!"header:ex{ty}:-:{used1}"
+    else if ty == Spec.STREAM_WEBTRANSPORT then
+      match Spec.varint r1 with
+      | none => none
+      | some (sid, r2) =>
+        -- a session id names a client-initiated bidirectional stream
+        if sid % 4 == 0 then some s!"header:wt:{sid}:{b.length - r2.length}" else some "invalid_sid"
+    else some "unknown"
+
 def handleCore (op : String) (a obs : List String) : Option Verdict :=
   match op with
   | "varint.rt" => do
@@ -262,7 +281,10 @@ def handleCore (op : String) (a obs : List String) : Option Verdict :=
     let sc ← parseScript (get a 1)
     let o := Frame.readAsync.run ⟨b, parseTail (get a 2)⟩ sc
     let model := outFrame b.length o
-    pure (model, check [("no_trap", !isTrap obs)])
+    pure (model, check [("no_trap", !isTrap obs),
+      -- a frame the reader reports is the first frame of the bytes by the independent framing
+      ("reported_frame_is_a_frame_of_the_stream", !(get obs 0).startsWith "ok:" ||
+        deliveredAreFrames b s!"frame:{(get obs 0).drop 3}")])
   | "frame.all" => do
     -- prefix hex script tail | sync buf adv async consumed
     let b ← unhex (get a 1)
@@ -305,18 +327,29 @@ def handleCore (op : String) (a obs : List String) : Option Verdict :=
     pure (model, prop)
   | "sh.read" => do
     let b ← unhex (get a 0)
-    pure ([headerRead b.length (StreamHeader.read b)], check [("no_trap", !isTrap obs)])
+    pure ([headerRead b.length (StreamHeader.read b)], check [("no_trap", !isTrap obs),
+      ("header_is_the_registry_reading", match specHeader b with
+        | some t => get obs 0 == t
+        | none => get obs 0 == "needmore")])
   | "sh.readbuf" => do
     let b ← unhex (get a 1)
     let (r, adv) := StreamHeader.readFromBuffer b
     let isHeader := (get obs 0).startsWith "header:"
     pure ([headerRead b.length r, toString adv],
-      check [("no_trap", !isTrap obs), ("offset_untouched_unless_header", isHeader || get obs 1 == "0")])
+      check [("no_trap", !isTrap obs), ("offset_untouched_unless_header", isHeader || get obs 1 == "0"),
+        ("header_is_the_registry_reading", match specHeader b with
+          | some t => get obs 0 == t
+          | none => get obs 0 == "needmore")])
   | "sh.readasync" => do
     let b ← unhex (get a 0)
     let sc ← parseScript (get a 1)
     let o := StreamHeader.readAsync.run ⟨b, parseTail (get a 2)⟩ sc
-    pure (outHeader b.length o, check [("no_trap", !isTrap obs)])
+    pure (outHeader b.length o, check [("no_trap", !isTrap obs),
+      -- a header the reader reports is the registry's reading of the bytes it consumed
+      ("reported_header_is_the_registry_reading", !(get obs 0).startsWith "ok:" ||
+        (match specHeader b with
+         | some t => s!"header:{(get obs 0).drop 3}:{get obs 1}" == t
+         | none => false))])
   | "sh.all" => do
     let b ← unhex (get a 1)
     let sc ← parseScript (get a 2)
